@@ -90,9 +90,22 @@ def run_template(job):
                 da.rcParams.update(saved_opts)
         import io
         import contextlib
+        cov = None
+        if os.environ.get('VERIF_COVERAGE'):
+            # development aid (not used by the registered commands): which lines / branches of dimarray do the explored paths execute?
+            import coverage
+            os.makedirs(os.environ['VERIF_COVERAGE'], exist_ok=True)
+            cov = coverage.Coverage(data_file=os.path.join(os.environ['VERIF_COVERAGE'], '.coverage'), data_suffix=True, branch=True,
+                                    include=[os.path.join(os.path.abspath(REPO), 'dimarray', '*')])
+            cov.start()
         with contextlib.redirect_stdout(io.StringIO()):      # the library prints diagnostics on some error paths
+          try:
             res = eng.explore(harness, deadline_s=job.get('deadline', 60), max_paths=job.get('max_paths', 500000),
                               witness_cap=job.get('witness_cap', 4))
+          finally:
+            if cov is not None:
+                cov.stop()
+                cov.save()
         out.update(status=res['status'], paths=res['paths'], verified=res['verified'], vacuous=res['vacuous'],
                    aborted=res['aborted'], reasons=res['abort_reasons'],
                    forks=eng.stats['forks'], decisions=eng.stats['decisions'],
